@@ -22,6 +22,8 @@ pub enum SOp {
     FindUsable,
     Clear,
     ShardStats,
+    /// several merge_external_noblock issued back to back, the futures read afterwards
+    MergeBurst(Vec<(u64, TrackDesc, Option<Vec<u64>>, bool)>),
     /// new_track(id) builder with one observation, then add_track
     NewTrack { id: u64, class: u64, attr: Option<i32>, feat: Option<i32>, upd: Option<HU> },
 }
@@ -177,6 +179,30 @@ pub fn check_seq(c: &SeqCase) -> CaseResult {
                 }
                 ensure!(r.is_ok() == expect_ok, "merge-external-result", "{}", at(&format!("returned {} but the model {}", if r.is_ok() { "Ok" } else { "Err" }, if expect_ok { "Ok" } else { "Err" })));
             }
+            SOp::MergeBurst(ms) => {
+                let mut futures = vec![];
+                let mut expects = vec![];
+                for (dest, src, classes, history) in ms {
+                    let (t, m) = build_both(src, &ctl, &n);
+                    futures.push(store.merge_external_noblock(*dest, t, classes.as_deref(), *history));
+                    // commands to one shard are executed in order, shards are independent: the
+                    // sequential application in issue order is the reference
+                    let expect_ok = if !model.contains_key(dest) || *dest == src.id {
+                        false
+                    } else {
+                        let cl = classes.clone().filter(|c| !c.is_empty()).unwrap_or_else(|| m.classes());
+                        model.get_mut(dest).unwrap().merge(&m, &cl, *history).0.is_ok()
+                    };
+                    if !expect_ok {
+                        failed_merge = true;
+                    }
+                    expects.push(expect_ok);
+                }
+                for (i, (f, e)) in futures.into_iter().zip(expects.into_iter()).enumerate() {
+                    let r = f.and_then(|f| f.get());
+                    ensure!(r.is_ok() == e, "merge-burst-result", "{}", at(&format!("merge {} of the burst returned {} but the model {}", i, if r.is_ok() { "Ok" } else { "Err" }, if e { "Ok" } else { "Err" })));
+                }
+            }
             SOp::Lookup(q) => {
                 let mut got: Vec<(u64, &'static str)> = store.lookup(q.clone()).iter().map(|(id, s)| (*id, status_str(s))).collect();
                 got.sort();
@@ -266,6 +292,7 @@ fn sop() -> impl Strategy<Value = SOp> {
         2 => proptest::collection::vec(ids(), 0..4).prop_map(SOp::Fetch),
         4 => (ids(), ids(), opt_classes(), any::<bool>(), any::<bool>()).prop_map(|(dest, src, classes, remove, history)| SOp::MergeOwned { dest, src, classes, remove, history }),
         3 => (ids(), prop_oneof![3 => Just(100u64), 1 => ids()].prop_flat_map(track_desc), opt_classes(), any::<bool>(), any::<bool>()).prop_map(|(dest, src, classes, history, noblock)| SOp::MergeExternal { dest, src, classes, history, noblock }),
+        2 => proptest::collection::vec((ids(), prop_oneof![3 => Just(100u64), 1 => ids()].prop_flat_map(track_desc), opt_classes(), any::<bool>()), 2..5).prop_map(SOp::MergeBurst),
         2 => prop_oneof![Just(HL::All), (-2i64..8).prop_map(HL::ValAtLeast), (0u8..2).prop_map(HL::Group), (0u64..4).prop_map(HL::HasClass), (0usize..3).prop_map(HL::HistoryLonger)].prop_map(SOp::Lookup),
         2 => Just(SOp::FindUsable),
         1 => Just(SOp::Clear),
